@@ -45,6 +45,7 @@ type mgrCase struct {
 	Closes    []int  // Close() call times: -1 = before Run, else x100ms after Run started
 	LateAddAt int    // x100ms+50 after Run started: Add(runner) (0 = none)
 	SecondRun bool
+	AddBefore int // this many of the runners (the last ones) are registered with Add before Run instead of through the constructor
 }
 
 type mgrCasePlain mgrCase
@@ -243,7 +244,13 @@ func runMgr(t *testing.T, c mgrCase) (nontrivial bool, classes []string, err err
 		}
 
 		if !c.Closer {
-			m := concurrency.NewRunnerManager(runners...)
+			m := concurrency.NewRunnerManager(runners[:len(runners)-c.AddBefore]...)
+			for _, r := range runners[len(runners)-c.AddBefore:] {
+				if e := m.Add(r); e != nil {
+					errs.Failf("Add before Run failed: %v", e)
+					return
+				}
+			}
 			var runErr error
 			spawn(func() {
 				runErr = m.Run(parent)
@@ -303,7 +310,13 @@ func runMgr(t *testing.T, c mgrCase) (nontrivial bool, classes []string, err err
 			grace = &g
 		}
 		log := quietLogger()
-		m := concurrency.NewRunnerCloserManager(log, grace, runners...)
+		m := concurrency.NewRunnerCloserManager(log, grace, runners[:len(runners)-c.AddBefore]...)
+		for _, r := range runners[len(runners)-c.AddBefore:] {
+			if e := m.Add(r); e != nil {
+				errs.Failf("Add before Run failed: %v", e)
+				return
+			}
+		}
 		m.WithFatalShutdown(func() { rec.log("fatal") })
 		mkCloser := func(i int, cs closerSpec) (any, error) {
 			var result error
@@ -571,6 +584,9 @@ func genCase(rt *rapid.T) mgrCase {
 			Result: rapid.SampledFrom([]string{"nil", "err", "err", "canceled", "wrapped", "ctxerr"}).Draw(rt, "result"),
 		})
 	}
+	if nr > 0 && rapid.Bool().Draw(rt, "someViaAdd") {
+		c.AddBefore = rapid.IntRange(1, nr).Draw(rt, "addBefore")
+	}
 	if rapid.IntRange(0, 3).Draw(rt, "parentCancel") == 0 {
 		c.ParentAt = slots[4]
 	}
@@ -626,6 +642,12 @@ func TestManagers(t *testing.T) {
 		nt, cls, err := runMgr(t, c)
 		if err != nil {
 			rt.Fatalf("C12 runner/closer manager violated: %v\ncase: %s", err, c)
+		}
+		if c.AddBefore > 0 {
+			cls = append(cls, "runners.some-via-Add")
+			if c.AddBefore == len(c.Runners) {
+				cls = append(cls, "runners.all-via-Add")
+			}
 		}
 		sec.Case(nt, vk.FP(c.String()), cls...)
 		sec.Sample(func() any { return c.String() })
